@@ -226,12 +226,23 @@ def nontrivial(c, ir, mr):
     return outcome(c, ir, mr) == "oracle:EXACT"
 
 
+def in_theorem_domain(mr):
+    mm = mr.get("model") if isinstance(mr, dict) else None
+    return isinstance(mm, dict) and "ok" in mm and bool(mm["ok"].get("supported")) and bool(mm["ok"].get("coherent"))
+
+
 def judge(c, ir, mr):
     w = mr.get("witness") if isinstance(mr, dict) else None
     if not isinstance(w, dict) or w.get("match") != "EXACT":
         return None          # the generator failed to produce a satisfiable signature: not a case of the property
     if not isinstance(ir, dict) or "exc" in ir:
         return {"kind": "harness-level failure", "why": str(ir)[:300]}
+    mm = mr.get("model")
+    if isinstance(mm, dict) and "ok" in mm and mm["ok"].get("supported") and mm["ok"].get("coherent") and c["uptime"] is None:
+        # the case is inside the domain of theorem C05_supported_sound: the model's own output must pass the oracle
+        if mm["ok"].get("oracle") != {"ok": ["EXACT", c["hops"]]}:
+            return {"kind": "MODEL: a Supported+coherent case whose model output fails the oracle (theorem statement would be false)",
+                    "why": "sig=%s model=%s" % (c["sig"], str(mm)[:300]), "no_failing_input": True}
     if "raised" in ir:
         return {"kind": "impersonate_tcp raised on a satisfiable signature and admissible base", "why": "%s  sig=%s" % (ir["raised"], c["sig"]),
                 "judged_by": "C05 (statement): returns - without raising - ..."}
